@@ -41,6 +41,16 @@ func (ae *additionExprNode) Run(ctx context.Context, currField string, tagExpr *
 		s1, _ := toString(v1, true)
 		return s0 + s1
 	}
+	if v0 == nil {
+		// an absent left operand counts as nothing, as an absent right operand does
+		// (and as absent operands do for - * / %): nil+1 is 1 like 1+nil
+		if s1, ok := toFloat64(v1, false); ok {
+			return s1
+		}
+		if s1, ok := toString(v1, false); ok {
+			return s1
+		}
+	}
 	return v0
 }
 
